@@ -4,6 +4,7 @@ HARNESSES = [
     ("rbtree", ["rbtree.cxx"], "plain"),
     ("specs", ["specs.cxx"], "plain"),
     ("subst", ["subst.cxx"], "plain"),
+    ("make", ["make.cxx"], "plain"),
     ("scopes", ["scopes.cxx"], "plain"),
     ("regions", ["regions.cxx"], "plain"),
     ("strings", ["strings.cxx"], "plain"),
